@@ -8,8 +8,8 @@ Result: /verif/seeded/reverts.json"""
 import sys, os, subprocess, json, re, time
 REPO = "/root/work/mutrepo2"; CHK = "/root/work/mutcheck2"
 FIXES = [
- ("8ceeade", ["C04"]), ("8adbebd", ["C10"]), ("180a75c", ["C10"]), ("6a27ab7", ["C10"]),
- ("9575cad", ["C17"]), ("bdd4847", ["C17"]), ("fe0a9bb", ["C16"]), ("78c3768", ["C16"]),
+ ("8ceeade", ["C04"]), ("8adbebd", ["C10"]), ("6a27ab7", ["C10"]), ("6a27ab7+180a75c", ["C10"]),
+ ("9575cad", ["C17"]), ("bdd4847", ["C17"]), ("78c3768", ["C16"]), ("78c3768+fe0a9bb", ["C16"]),
  ("8e08928", ["C20", "C18"]), ("ad84642", ["C20"]), ("4dce709", ["C12"]), ("4e9b105", ["C13"]),
  ("319704e", ["C14", "C20"]), ("bcfb5fb", ["C09", "C19"]), ("908b0c0", ["C09"]), ("f27f164", ["C09"]),
  ("7b45d6e", ["C19"]), ("ac4d762", ["C19"]), ("1eddcdf", ["C19"]), ("ed7eff8", ["C19"]),
@@ -24,13 +24,16 @@ res = json.load(open(out_path)) if os.path.exists(out_path) else {}
 for c, pids in FIXES:
     if want and c not in want:
         continue
-    sh("git checkout -- . && git clean -fdq -e target", cwd=REPO)
-    rc, subj = sh("git log -1 --format=%%s %s" % c, cwd=REPO)
-    rc, out = sh("git diff %s^ %s | git apply -R --3way" % (c, c), cwd=REPO)
+    sh("git reset -q --hard; git clean -fdq -e target", cwd=REPO)
+    rc, subj = sh("git log -1 --format=%%s %s" % c.split("+")[-1], cwd=REPO)
+    rc, out = 0, ""
+    for one in c.split("+"):        # "a+b": reverse a (the later commit) first, then b
+        r1, o1 = sh("git diff %s^ %s | git apply -R" % (one, one), cwd=REPO)
+        rc = rc or r1; out += o1
     entry = {"subject": subj.strip(), "reverse_applies": rc == 0, "checks": {}}
     if rc != 0:
         entry["apply_output"] = out[-800:]
-        sh("git checkout -- . && git reset -q --hard && git clean -fdq -e target", cwd=REPO)
+        sh("git reset -q --hard; git clean -fdq -e target", cwd=REPO)
         res[c] = entry
         json.dump(res, open(out_path, "w"), indent=1)
         print(c, "does not reverse-apply"); continue
@@ -50,7 +53,7 @@ for c, pids in FIXES:
         entry["checks"][pid] = {"exit": rc, "violations": sum(1 for l in lines if l.startswith("VIOLATION")),
                                 "first": [l[:200] for l in lines[:2]], "violated_clause": clause, "wall_s": round(time.time() - t)}
         print(c, pid, rc, clause)
-    sh("git checkout -- . && git reset -q --hard && git clean -fdq -e target", cwd=REPO)
+    sh("git reset -q --hard; git clean -fdq -e target", cwd=REPO)
     sh("find replays -type f -delete", cwd=CHK)
     res[c] = entry
     json.dump(res, open(out_path, "w"), indent=1)
